@@ -105,7 +105,7 @@ def main():
   loaders = {}
   junk = []
   native_junk = []
-  probes = {"io_fault_armed": 0, "io_fault_fired": 0, "loader_retired_after_fault": 0,
+  probes = {"io_fault_armed": 0, "io_fault_fired": 0, "loader_kept_after_fault": 0,
             "gc_collect": 0, "gc_freeze": 0, "gc_threshold_set": 0,
             "clock_jumps": 0, "junk_allocs": 0, "reused_loader": 0,
             "reused_loader_had_cached_module": 0, "deps_built": 0,
@@ -308,14 +308,14 @@ def main():
     if r.get("crash"):
       resp["crash"] = r["crash"]
     if fired[0]:
-      # the analysis met an injected I/O error: its own result is not compared,
-      # and a persistent loader that saw the error is retired (what a reused
-      # loader does after a storage fault is outside the property)
+      # the analysis met an injected I/O error: its own result is not compared
       resp["faulted"] = True
       probes["io_fault_fired"] += 1
       if lkey is not None and lkey in loaders:
-        del loaders[lkey]
-        probes["loader_retired_after_fault"] += 1
+        # the persistent loader that saw the error STAYS in use: pytype's
+        # loader cleans up after a failed import (load_pytd.process_module), so
+        # later analyses through it are held to the same equality
+        probes["loader_kept_after_fault"] = probes.get("loader_kept_after_fault", 0) + 1
     if job.get("full"):
       resp["pyi_text"] = r.get("pyi")
       resp["csv_text"] = r.get("csv")
@@ -389,7 +389,6 @@ def main():
                         "faulted": bool(fault_fired[0])})
       if fault_fired[0]:
         probes["io_fault_fired"] += 1
-        loaders.clear()
     fault_fired[0] = False
 
   probes["clock_reads"] = clock.reads if clock else 0
